@@ -1,7 +1,7 @@
 """Hand-written mutants (each passes the repository's own 36 tests unless noted)."""
 MUTANTS = []
-def M(id, prop, file, old, new, equivalent=False):
-    MUTANTS.append(dict(id=id, prop=prop, file=file, old=old, new=new, equivalent=equivalent))
+def M(id, prop, file, old, new, equivalent=False, all=False):
+    MUTANTS.append(dict(id=id, prop=prop, file=file, old=old, new=new, equivalent=equivalent, all=all))
 
 # ---- C01
 M("c01-shift7", "C01", "py_common.py", "0xFF & ((G[0] << 8 - ibit) | (G[1] >> ibit))", "0xFF & ((G[0] << 8 - ibit) | (G[1] >> (ibit + (ibit == 7))))")
@@ -137,3 +137,14 @@ M("c20-D17-regress", "C20", "extra/aero.py", "    cos = np.where(cos < -1, -1, c
 M("c20-eas", "C20", "extra/aero.py", "    Veas = Vtas * np.sqrt(rho / rho0)", "    Veas = Vtas * np.sqrt(rho / 1.2)")
 M("c20-trop", "C20", "extra/aero.py", "    dhstrat = np.maximum(0.0, H - 11000.0)", "    dhstrat = np.maximum(0.0, H - 11100.0)")
 M("c20-array", "C20", "extra/aero.py", "def vsound(H):\n    \"\"\"Speed of sound\"\"\"\n    T = temperature(H)", "def vsound(H):\n    \"\"\"Speed of sound\"\"\"\n    T = temperature(np.max(H))")
+
+# ---- C16
+M("c16-start-equiv", "C16", "extra/tcpclient.py", "                start = i\n", "                start = i + 1\n", all=True, equivalent=True)
+M("c16-pair", "C16", "extra/tcpclient.py", "                msg.append(0x1A)\n                i += 1\n", "                msg.append(0x1A)\n", all=True)
+M("c16-undecided", "C16", "extra/tcpclient.py", "            elif i == len(self.buffer) - 1:\n                # a trailing <esc> is either a divider or half of an escaped\n                # 0x1a, decide in the next reading cycle\n                break\n", "            elif i == len(self.buffer) - 1:\n                start = i\n                break\n", all=True)
+M("c16-sky", "C16", "extra/tcpclient.py", "                self.buffer = self.buffer[SS_MSGLENGTH:]", "                self.buffer = self.buffer[SS_MSGLENGTH + 1 :]")
+M("c16-net", "C16", "streamer/source.py", "class NetSource(TcpClient):\n    def __init__(self, host, port, rawtype):\n        super(NetSource, self).__init__(host, port, rawtype)\n        self.reset_local_buffer()\n\n    def reset_local_buffer(self):\n        self.local_buffer_adsb_msg = []\n        self.local_buffer_adsb_ts = []\n        self.local_buffer_commb_msg = []\n        self.local_buffer_commb_ts = []\n\n    def handle_messages(self, messages):\n\n        if self.stop_flag.value is True:\n            self.stop()\n            return\n\n        for msg, t in messages:\n            if len(msg) < 28:  # only process long messages\n                continue\n\n            df = pms.df(msg)\n\n            if df == 17 or df == 18:\n                self.local_buffer_adsb_msg.append(msg)\n                self.local_buffer_adsb_ts.append(t)\n            elif df == 20 or df == 21:\n                self.local_buffer_commb_msg.append(msg)\n                self.local_buffer_commb_ts.append(t)\n            else:\n                continue\n\n        if len(self.local_buffer_adsb_msg) > 1:", "class NetSource(TcpClient):\n    def __init__(self, host, port, rawtype):\n        super(NetSource, self).__init__(host, port, rawtype)\n        self.reset_local_buffer()\n\n    def reset_local_buffer(self):\n        self.local_buffer_adsb_msg = []\n        self.local_buffer_adsb_ts = []\n        self.local_buffer_commb_msg = []\n        self.local_buffer_commb_ts = []\n\n    def handle_messages(self, messages):\n\n        if self.stop_flag.value is True:\n            self.stop()\n            return\n\n        for msg, t in messages:\n            if len(msg) < 28:  # only process long messages\n                continue\n\n            df = pms.df(msg)\n\n            if df == 17 or df == 18:\n                self.local_buffer_adsb_msg.append(msg)\n                self.local_buffer_adsb_ts.append(t)\n            elif df == 20 or df == 21:\n                self.local_buffer_commb_msg.append(msg)\n                self.local_buffer_commb_ts.append(t)\n            else:\n                continue\n\n        if len(self.local_buffer_adsb_msg) > 2:")
+M("c16-D14-regress", "C16", "extra/tcpclient.py", "        msg_stop = False\n        for b in self.buffer:", "        msg_stop = False\n        self.current_msg = \"\"\n        for b in self.buffer:")
+M("c16-rawlower", "C16", "extra/tcpclient.py", "(48 <= b <= 57 or 65 <= b <= 70 or 97 <= b <= 102)", "(48 <= b <= 57 or 65 <= b <= 70 or 97 <= b <= 101)")
+M("c16-net-df21", "C16", "streamer/source.py", "            elif df == 20 or df == 21:\n                self.local_buffer_commb_msg.append(msg)\n                self.local_buffer_commb_ts.append(t)\n            else:\n                continue\n\n        if len(self.local_buffer_adsb_msg) > 1:\n            self.raw_pipe_in.send(\n                {\n                    \"adsb_ts\": self.local_buffer_adsb_ts,\n                    \"adsb_msg\": self.local_buffer_adsb_msg,\n                    \"commb_ts\": self.local_buffer_commb_ts,\n                    \"commb_msg\": self.local_buffer_commb_msg,\n                }\n            )\n            self.reset_local_buffer()\n\n\nclass RtlSdrSource", "            elif df == 20:\n                self.local_buffer_commb_msg.append(msg)\n                self.local_buffer_commb_ts.append(t)\n            else:\n                continue\n\n        if len(self.local_buffer_adsb_msg) > 1:\n            self.raw_pipe_in.send(\n                {\n                    \"adsb_ts\": self.local_buffer_adsb_ts,\n                    \"adsb_msg\": self.local_buffer_adsb_msg,\n                    \"commb_ts\": self.local_buffer_commb_ts,\n                    \"commb_msg\": self.local_buffer_commb_msg,\n                }\n            )\n            self.reset_local_buffer()\n\n\nclass RtlSdrSource")
+M("c16-long21", "C16", "extra/tcpclient.py", "                msg = \"\".join(\"%02X\" % i for i in mm[8:22])\n            else:\n                # Other message tupe\n                continue\n\n            if len(msg) not in [14, 28]:\n                continue\n\n            df = pms.df(msg)\n\n            # skip", "                msg = \"\".join(\"%02X\" % i for i in mm[8:22]) if mm[21] != 0x1A else \"\"\n            else:\n                # Other message tupe\n                continue\n\n            if len(msg) not in [14, 28]:\n                continue\n\n            df = pms.df(msg)\n\n            # skip")
